@@ -116,6 +116,10 @@ pub mod core_iterators;
 pub mod double_priority_queue;
 pub mod priority_queue;
 mod store;
+#[cfg(priority_queue_verif)]
+mod verif_hooks;
+#[cfg(priority_queue_verif)]
+pub use crate::verif_hooks::VerifSnapshot;
 
 pub use crate::double_priority_queue::DoublePriorityQueue;
 pub use crate::priority_queue::PriorityQueue;
